@@ -1978,7 +1978,7 @@ def corpus():
     # configured: no handler of the grammar reads the body, so hooks, routing and handler run as for any request
     # (seeded change: a BodyMixin.on_init refuses an oversized Content-Length inside request.__init__, before
     # response.__init__() and outside the try/finally that emits the hooks)
-    setter = dict(k='ok', rhooks=[], h=dict(muts=[dict(m='cookie', n='sid', v='v1'), dict(m='set', n='X-A', v='v')],
+    setter = dict(k='ok', reg='ANY', rhooks=[], h=dict(muts=[dict(m='cookie', n='sid', v='v1'), dict(m='set', n='X-A', v='v')],
                                             res=dict(k='ret', o=hello)))
     for i, odd in enumerate(REQ_ODDITIES):
         for lim in BODY_LIMITS:
